@@ -128,7 +128,7 @@ def run(ck):
             runs.append(k)
     results = memagents1.run_cases(ck, "datamover", runs)
 
-    acks = passed = max_cycles = 0
+    acks = passed = max_cycles = rule_but_passed = 0
     per_class = {}
     seen_nt = set()
     for c, res in zip(runs, results):
@@ -141,6 +141,7 @@ def run(ck):
         if not f:
             passed += 1
             max_cycles = max(max_cycles, res["cycles"])
+            rule_but_passed += hangs_by_rule(c)
             if res["acks"] != len(c["reqs"]):
                 raise core.Broken("driver inconsistency: pass with %d acks for %d requests" % (res["acks"], len(c["reqs"])))
             continue
@@ -164,6 +165,8 @@ def run(ck):
     ck.cov["evaluations"] += acks
     ck.cov["distinct_nontrivial"] += len(seen_nt)
     ck.cov["runs_passed"] = passed
+    # 0 means the recorded small-buffer class is exactly the set of moves that hang, so it cannot mask a larger one
+    ck.cov["runs_in_small_buffer_class_that_passed"] = rule_but_passed
     ck.cov["max_cycles_of_a_passing_run"] = max_cycles   # runs are cut off at 3000 cycles
     ck.cov["failures_by_class"] = {"%s/%s" % k: v for k, v in sorted(per_class.items())}
     for c in (runs[0], runs[len(runs) // 2], runs[-1]):
